@@ -111,10 +111,29 @@ class Repo:
             copy.copy(self.CALENDAR).set_mode(
                 ("360day", "366day", "gregorian", "365day")[len(mode) % 4])
 
+    def _sub(self, base):
+        """a subclass that adds nothing: its instances are values of the
+        base class like any other"""
+        subs = self.__dict__.setdefault("_subclasses", {})
+        if base not in subs:
+            # (`class PlainTimePoint(TimePoint): pass` - no __slots__ of its
+            # own: the library's _copy walks `self.__slots__`)
+            cls = type("Plain" + base.__name__, (base,), {})
+            # importable by name, so that pickle can find it
+            cls.__module__ = __name__
+            globals()[cls.__name__] = cls
+            subs[base] = cls
+        return subs[base]
+
     def tp(self, kw):
+        # (one case in sixteen, chosen by a checksum of the keywords)
+        if zlib.crc32(repr(sorted(kw.items(), key=str)).encode()) % 16 == 5:
+            return self._sub(self.TimePoint)(**kw)
         return self.TimePoint(**kw)
 
     def dur(self, kw):
+        if zlib.crc32(repr(sorted(kw.items(), key=str)).encode()) % 16 == 5:
+            return self._sub(self.Duration)(**kw)
         return self.Duration(**kw)
 
 
